@@ -161,8 +161,14 @@ class Run:
             r.violated = r.violated or "Deadlock"
         r.ok = (rc == 0 and not r.violated and not r.error)
         if coverage:
+            # with -coverage TLC prints interim reports during long runs (actions not reached yet show 0):
+            # only the final report counts
+            covtxt = r.stdout
+            k = covtxt.rfind("The coverage statistics")
+            if k >= 0:
+                covtxt = covtxt[k:]
             for cm in re.finditer(r"^<(\w+) line \d+, col \d+ to line \d+, col \d+ of module (\w+)>: (\d+):(\d+)$",
-                                  r.stdout, re.M):
+                                  covtxt, re.M):
                 if int(cm.group(4)) == 0 and cm.group(1) not in ("Init",):
                     r.coverage_zero.append(cm.group(1))
         if collect_beh:
